@@ -30,7 +30,8 @@ def rand_fields(rnd, kind):
         rem = bytes(rnd.choice(b"ABCELZM0123456789") for _ in range(rnd.choice([8, 8, 8, 0, 1, 7])))
         return [rnd.choice([0, 1, 255, 256, 65535, rnd.randrange(500)]), rnd.randrange(2), rnd.choice(world.MODE_NAMES), rnd.choice([0, 16, 30, 255, rnd.randrange(256)]),
                 rnd.choice(world.FAN_NAMES), rnd.randrange(2), rem.hex(), rnd.choice([4, 17, 28, rnd.randrange(40)])]
-    return [world.rand_bytes(rnd, 4).hex(), rnd.choice([0, 1, 12, 32, rnd.randrange(60)])]
+    sess = rnd.choice([b"\0\0\0\0", b"\xff\xff\xff\xff", b"\0\0\0\1", b"\1\0\0\0", b"\0\0\xff\0", world.rand_bytes(rnd, 4), world.rand_bytes(rnd, 4), world.rand_bytes(rnd, 4)])
+    return [sess.hex(), rnd.choice([0, 1, 12, 32, rnd.randrange(60)])]
 
 
 def args_of(kind, f):
